@@ -189,10 +189,15 @@ def run_real(spec, X, y):
     with instrument(log), warnings.catch_warnings():
         warnings.simplefilter("ignore")
         try:
-            model = build_model(spec, log)
+            late_bs = "bs_at_decoration" in spec
+            model = build_model({**spec, "bs": spec["bs_at_decoration"]} if late_bs else spec, log)
             if spec.get("decorated"):
                 from gemclus.mlcl import add_mlcl_constraint
                 model = add_mlcl_constraint(model, must_link=spec.get("ml") or None, cannot_link=spec.get("cl") or None)
+            if late_bs:
+                # the hyperparameter is changed AFTER the decoration (parameter search, refit): the batches follow the value that
+                # the estimator holds when fit / path runs
+                model.set_params(batch_size=spec["bs"])
             model._batchify = RecBatchify(model._batchify, log, max_calls)
             out["model"] = model
             if spec.get("op", "fit") == "fit":
